@@ -50,8 +50,12 @@ func (dv *defaultVerifierSimple) verifyRoot(root *Node) ([]string, []string, err
 
 	dirsFilesystem := map[string]struct{}{}
 	extraDirs := []string{}
-	if err := fs.WalkDir(
-		os.DirFS(filepath.Join(dv.targetDir, root.path())),
+	rootPath := filepath.Join(dv.targetDir, root.path())
+	if info, err := os.Stat(rootPath); err == nil && !info.IsDir() {
+		// the root is a file (e.g. made by Mkdir with a file extension): it exists and has nothing beneath it
+		dirsFilesystem[rootPath] = struct{}{}
+	} else if err := fs.WalkDir(
+		os.DirFS(rootPath),
 		".",
 		func(path string, d fs.DirEntry, err error) error {
 			dir := filepath.Join(dv.targetDir, root.path(), path)
